@@ -22,7 +22,7 @@ import os
 
 import numpy as np
 
-from .envs import Recorder, RunAway, ScriptEnv, decode_obs
+from .envs import Recorder, RunAway, ScriptEnv, decode_obs, qrow_fields
 
 ROUTINES = {}
 
@@ -164,6 +164,10 @@ def _dqn_common(name, sc, mod, train, extra_kwargs, uses_target, per=False, has_
         kwargs["learning_starts"] = sc["warm"]
     kwargs.update(extra_kwargs)
     real_greedy = mod.greedy_policy
+    # executed actions (C13 ExecutedActionGreedy): every step event carries the action values of the LIVE online network at
+    # the observation the environment returned last, evaluated when the environment receives the action (same eager
+    # evaluation as the greedy probe below)
+    env.exec_probe = lambda obs: qrow_fields(np.asarray(q_net(np.asarray([obs], dtype=np.float32)))[0])
 
     def greedy(q, obs):
         a = real_greedy(q, obs)
@@ -337,6 +341,7 @@ def run_td3_lap(sc):
 
 # ------------------------------------------------------------------ scenarios
 VALUE_BASED = {"dqn", "nature_dqn", "ddqn", "ddqn_per", "q_learning", "sarsa", "double_q_learning", "monte_carlo", "dynaq"}
+TABULAR = {"q_learning", "sarsa", "double_q_learning", "monte_carlo", "dynaq"}
 
 
 def scenarios(tier, seed, routine=None):
@@ -356,6 +361,12 @@ def scenarios(tier, seed, routine=None):
             dict(base, label="E0", script=[(3, "term"), (2, "trunc"), (4, "term")], budget=18, start=0, eplimit=0, warm=3, epsilon=0.0),
             dict(base, label="E1", script=[(3, "term"), (2, "trunc")], budget=12, start=0, eplimit=0, warm=2, epsilon=1.0),
         ]
+        if routine in TABULAR:
+            # epsilon 0 on an environment with SELF-TRANSITIONS (every state is held for two steps) and negative rewards:
+            # the update lowers the value of the action just tried, so the maximiser of the row the agent is still in
+            # changes between two consecutive actions (C13 ExecutedActionGreedy: act on the CURRENT estimate)
+            scs.append(dict(base, label="E0S", script=[(4, "term"), (2, "trunc"), (3, "term")], budget=18, start=0, eplimit=0, warm=3, epsilon=0.0,
+                            stay=2, reward_scale=-1.0))
         if routine in ("dqn", "nature_dqn", "ddqn", "ddqn_per"):
             # scheduled exploration: epsilon 1 up to step 7, then 0
             scs.append(dict(base, label="ES", script=[(3, "term"), (2, "trunc"), (4, "term")], budget=16, start=0, eplimit=0, warm=3, eps_switch=7))
